@@ -105,7 +105,7 @@ def tlc(pid, module, cfg=None, workers=None, timeout=1800, env=None, simulate=No
     md = outdir(pid, "tlc", tag + "-" + str(os.getpid()))
     shutil.rmtree(md, ignore_errors=True)
     os.makedirs(md, exist_ok=True)
-    jopts = ["-Xmx" + heap, "-XX:+UseParallelGC"]
+    jopts = ["-Xmx" + heap, "-Xss512m", "-XX:+UseParallelGC"]
     if dfs:
         jopts.append("-Dtlc2.tool.queue.IStateQueue=StateDeque")
     cmd = ["java"] + jopts + ["-cp", TLA_JAR + ":" + "/opt/veriftools/tla/CommunityModules-deps.jar",
